@@ -335,6 +335,8 @@ class Profiles:
             self._profilesProperties.clear()
             self._rawProfiles.clear()
             del self._profileNames[:]
+            # no profile is left so no custom macros are left either
+            self._resetProperties()
         else:
             reset = False
 
